@@ -5,6 +5,9 @@ PROP = {
   "saml2_tophat.sigver:SecurityContext.correctly_signed_response",
   "saml2_tophat.sigver:SecurityContext.correctly_signed_message[authn_request]"
  ],
+ "bounded": [
+  "mdstore_lookup"
+ ],
  "level": "proof",
  "id": "C03"
 }
